@@ -362,8 +362,12 @@ func (x *Exec) verifyFuncPass(d *Decl, res *UnitResult, fd *ast.FuncDecl, fixed 
 		if c.Kind == "use" && c.FnName != "" && c.SplitVar == "" {
 			rc := &Clause{Kind: "use", FnName: c.FnName + "_req", Text: c.Text}
 			fa := x.frozenArgs(cargs, st)
-			x.oblige("lemma-pre", st, x.evalClause(pk, rc, fa, st), fd, "requires of lemma instance "+c.Text)
-			st.assume(x.evalClause(pk, c, fa, st))
+			if c.Cond {
+				st.assume(mkImplies(x.evalClause(pk, rc, fa, st), x.evalClause(pk, c, fa, st)))
+			} else {
+				x.oblige("lemma-pre", st, x.evalClause(pk, rc, fa, st), fd, "requires of lemma instance "+c.Text)
+				st.assume(x.evalClause(pk, c, fa, st))
+			}
 			x.usedLemmas[strings.TrimSpace(c.Text[:strings.Index(c.Text, "(")])] = true
 		}
 	}
@@ -566,8 +570,12 @@ func (x *Exec) verifyLemma(d *Decl, res *UnitResult) {
 	for _, c := range d.Clauses {
 		if c.Kind == "use" && c.FnName != "" {
 			rc := &Clause{Kind: "use", FnName: c.FnName + "_req", Text: c.Text}
-			x.oblige("lemma-pre", st, x.evalClause(pk, rc, args, st), nil, "requires of lemma instance "+c.Text)
-			st.assume(x.evalClause(pk, c, args, st))
+			if c.Cond {
+				st.assume(mkImplies(x.evalClause(pk, rc, args, st), x.evalClause(pk, c, args, st)))
+			} else {
+				x.oblige("lemma-pre", st, x.evalClause(pk, rc, args, st), nil, "requires of lemma instance "+c.Text)
+				st.assume(x.evalClause(pk, c, args, st))
+			}
 			x.usedLemmas[strings.TrimSpace(c.Text[:strings.Index(c.Text, "(")])] = true
 		}
 	}
@@ -599,7 +607,7 @@ func (x *Exec) verifyGhost(d *Decl, res *UnitResult) {
 	for i, l := range loopsOf(fd) {
 		x.loopInfo[l] = i + 1
 	}
-	x.specMode = 1
+	x.ghostUnit = true
 	st := newState()
 	var args []Value
 	for _, f := range fd.Type.Params.List {
